@@ -278,7 +278,9 @@ class Validator(PySHACLRunType):
                 'functions': gather_functions(executor, self.shacl_graph),
                 'rules': gather_rules(executor, self.shacl_graph, from_shapes=gather_from_shapes),
             }
-            for s in shapes:
+            # every loaded shape, not only the selected ones: with use_shapes the shapes a selected shape refers to are
+            # evaluated on its behalf and carry advanced constraints (sh:expression) too
+            for s in self.shacl_graph.shapes:
                 s.set_advanced(True)
             apply_target_types(target_types)
         else:
